@@ -220,4 +220,35 @@ theorem C12_walk_exactly_once {α} (key : α → Id) (p : α → Bool) (rows : L
   · intro x; rw [hw, mem_sortId']; simp [List.mem_filter]
   · rw [hw]; exact sortedLt_sortId key _ (hkeys.sublist List.filter_sublist)
 
+/-- **C12 (the subscriptions of a topic are those of the live row of that name)**:
+    `ListTopicSubscriptions` answers NotFound unless a live topic carries the name, and every name on
+    a page belongs to a live subscription attached to *that row* — a subscription of a deleted
+    incarnation of the name is not inherited by the topic made again under it.  (Each page is a
+    `listPage`, so `C12_page_sound` and `C12_walk_exactly_once` apply to the walk.) -/
+theorem C12_topic_subscriptions (db : Db) (now : Time) (topic : String) (size : Int) (tok : Option Id) :
+    (db.liveTopicByName topic = none → (hListTopicSubs db now topic size (tok.map some)).2.status ≠ .ok) ∧
+    (∀ t, isValidTopicName topic = true → db.liveTopicByName topic = some t →
+      (hListTopicSubs db now topic size (tok.map some)).2.status = .ok ∧
+      (hListTopicSubs db now topic size (tok.map some)).2.body =
+        ";".intercalate ((listPage (·.id) (fun (s : Sub) => s.topicId == t.id && s.live) db.subs tok (effPageSize size 100)).1.map
+          fun s => "name=" ++ Codec.enc s.name) ++ "|next=" ++
+          Codec.optStr toString (listPage (·.id) (fun (s : Sub) => s.topicId == t.id && s.live) db.subs tok (effPageSize size 100)).2 ∧
+      ∀ s ∈ (listPage (·.id) (fun (s : Sub) => s.topicId == t.id && s.live) db.subs tok (effPageSize size 100)).1,
+        s ∈ db.subs ∧ s.topicId = t.id ∧ s.live = true) := by
+  constructor
+  · intro hnone
+    unfold hListTopicSubs
+    split
+    · simp
+    · rw [hnone]; simp
+  · intro t hv ht
+    refine ⟨?_, ?_, ?_⟩
+    · unfold hListTopicSubs; rw [hv, ht]; cases tok <;> rfl
+    · unfold hListTopicSubs; rw [hv, ht]; cases tok <;> rfl
+    · intro s hs
+      have h := C12_page_sound (·.id) (fun (s : Sub) => s.topicId == t.id && s.live) db.subs tok (effPageSize size 100) s hs
+      have h2 := h.2.1
+      simp only [Bool.and_eq_true, beq_iff_eq] at h2
+      exact ⟨h.1, h2.1, h2.2⟩
+
 end Mmmbbb.Api
